@@ -931,7 +931,10 @@ def run_bounded(prop, tier, seed, names=None):
         exe = os.path.join(VERIF, "bounded", "target", "release", "bounded")
         build_bounded()
         args = [exe, b["name"], "--tier", tier, "--seed", str(seed)]
-        p = subprocess.run(args, capture_output=True, text=True, timeout=3000)
+        try:
+            p = subprocess.run(args, capture_output=True, text=True, timeout=3000)
+        except subprocess.TimeoutExpired:
+            raise Undecided(f"bounded stand-in {b['name']} did not finish within 3000 s")
         try:
             js = json.loads(p.stdout.strip().split("\n")[-1])
         except Exception:
